@@ -4,7 +4,7 @@
    (open-path counter, shorted mask, early returns); [spec] is the pointwise law on extended values. *)
 From Coq Require Import Reals ZArith Bool List.
 From Coquelicot Require Import Coquelicot.
-From PV Require Import Base.Outcome Circuit.Imp Circuit.Imp_facts Circuit.ImpC.
+From PV Require Import Base.Outcome Circuit.Imp Circuit.Imp_facts Circuit.Imp_total Circuit.ImpC.
 Import ListNotations.
 
 (* For every number type, every tree (any nesting, any width), every vector length and every assignment of
@@ -18,6 +18,16 @@ Theorem C01_impl_sound :
   v = map (fun i => spec K k0 kadd kinv kis0 t (fun id => nth i (leafv id) Inf)) (seq 0 n).
 Proof. exact impl_sound. Qed.
 Print Assumptions C01_impl_sound.
+
+(* ... and evaluated one frequency at a time the implementation ALWAYS returns, with exactly the law's value: the only refusal of the
+   array version (InfiniteImpedance for a vector that is open at some frequencies and not at others) cannot occur for one
+   frequency.  Total correctness of Series/Parallel._impedance at a single frequency, for every tree and every leaf values. *)
+Theorem C01_single_frequency_total_correct :
+  forall (K : Type) (k0 : K) (kadd : K -> K -> K) (kinv : K -> K) (kis0 : K -> bool) (leafv : nat -> list (ez K)),
+  (forall id, length (leafv id) = 1%nat) ->
+  forall t, impl K k0 kadd kinv kis0 leafv 1 t = Ok [spec K k0 kadd kinv kis0 t (fun id => nth 0 (leafv id) Inf)].
+Proof. exact single_frequency_correct. Qed.
+Print Assumptions C01_single_frequency_total_correct.
 
 (* evaluating as an array and one frequency at a time agree wherever both return *)
 Theorem C01_vector_eq_pointwise :
